@@ -379,6 +379,16 @@ def check_property(mod, tier, seed, replay=None):
         mods = local_imports(prop_module)
         t1 = time.time()
         rcc, o1, e1 = run(['lake', 'env', 'leanchecker'] + mods, cwd=LEAN, timeout=7200)
+        for attempt in range(2):
+            if rcc == 0 or (rcc > 0 and (o1 + e1).strip()):
+                break
+            # killed by a signal / no diagnostic at all (observed when several thorough checks and other Lean
+            # jobs exhaust the memory): this is the machine, not the proofs - wait and try again
+            time.sleep(20 * (attempt + 1))
+            rcc, o1, e1 = run(['lake', 'env', 'leanchecker'] + mods, cwd=LEAN, timeout=7200)
+        if rcc != 0 and not (rcc > 0 and (o1 + e1).strip()):
+            print("infrastructure failure: leanchecker ended with status %s and no diagnostic three times (out of memory?)" % rcc)
+            return 2
         recheck = dict(cmd='lake env leanchecker <%d modules>' % len(mods), modules=len(mods), ok=(rcc == 0), wall_s=round(time.time() - t1, 1),
                        output=(o1 + e1)[-400:])
         if rcc != 0:
